@@ -696,7 +696,10 @@ class SynthDef(metaclass=MetaSynthDef):
             for item in self._children:
                 item._write_def(file)
 
-            frw.write_i16(file, len(self._variants))
+            # Variants are validated while being written to a side buffer so
+            # that the count written is the number of variants that follow.
+            variants_data = io.BytesIO()
+            num_variants = 0
             if len(self._variants) > 0:
                 allcns_map = dict()
                 for cn in allcns_tmp:
@@ -708,7 +711,7 @@ class SynthDef(metaclass=MetaSynthDef):
                         _logger.warning(
                             f"variant '{varname}' name too log, "
                             "not writing more variants")
-                        return False
+                        break
 
                     varcontrols = self._controls[:]
                     for cname, values in pairs.items():
@@ -716,7 +719,7 @@ class SynthDef(metaclass=MetaSynthDef):
                             _logger.warning(
                                 f"control '{cname}' of variant '{varname}' "
                                 "not found, not writing more variants")
-                            return False
+                            break
 
                         cn = allcns_map[cname]
                         values = utl.as_list(values)
@@ -724,16 +727,21 @@ class SynthDef(metaclass=MetaSynthDef):
                             _logger.warning(
                                 f"control: '{cname}' of variant: '{varname}' "
                                 "size mismatch, not writing more variants")
-                            return False
+                            break
 
                         index = cn.index
                         for i, val in enumerate(values):
                             varcontrols[index + i] = val
-
-                    frw.write_pascal_str(file, varname)
-                    for item in varcontrols:
-                        frw.write_f32(file, item)
-            return True
+                    else:
+                        frw.write_pascal_str(variants_data, varname)
+                        for item in varcontrols:
+                            frw.write_f32(variants_data, item)
+                        num_variants += 1
+                        continue
+                    break
+            frw.write_i16(file, num_variants)
+            file.write(variants_data.getvalue())
+            return num_variants == len(self._variants)
         except Exception as e:
             raise Exception('SynthDef: could not write def') from e
 
